@@ -175,6 +175,18 @@ H2(s, p) ==
             /\ y.act \in {"permit", "deny"} /\ y.act # x.act /\ Matches(y, p, NoGrp)
             /\ ~\E k \in DOMAIN NewOf(s) : SameLine(NewOf(s)[k], y)
 
+\* known finding, shape H3 (see AsaTrace): x was moved across a line y of the opposite action that the
+\* target keeps and that has not been moved yet; x and y stand in the other order than in the target
+PosIn(q, a) == IF \E i \in DOMAIN q : SameLine(q[i], a) THEN CHOOSE i \in DOMAIN q : SameLine(q[i], a) ELSE 0
+H3(s, p) ==
+  LET c == Bound(intf, s[1], s[2]) IN
+  /\ c # "" /\ c \in DOMAIN acl
+  /\ \E x \in moved : /\ Matches(x, p, NoGrp) /\ PosIn(Aces(c), x) > 0 /\ PosIn(NewOf(s), x) > 0
+       /\ \E j \in DOMAIN acl[c] : LET y == acl[c][j].ace IN
+            /\ y.act \in {"permit", "deny"} /\ y.act # x.act /\ Matches(y, p, NoGrp)
+            /\ PosIn(NewOf(s), y) > 0 /\ [y EXCEPT !.log = ""] \notin moved
+            /\ (j < PosIn(Aces(c), x)) # (PosIn(NewOf(s), y) < PosIn(NewOf(s), x))
+
 \* known finding 10b: old and new version of a bound ACL share no line: rewritten in place
 K2(s) == ~\E a \in DOMAIN OldOf(s), b \in DOMAIN NewOf(s) : OldOf(s)[a] = NewOf(s)[b]
 
@@ -187,7 +199,8 @@ AclUnsafe == \E s \in SafeSlots : Unsafe(s) # {}
 AclUnsafeKF ==
   IF \A s \in SafeSlots : Unsafe(s) # {} => K2(s) THEN "K2"
   ELSE IF \A s \in SafeSlots : \A p \in Unsafe(s) : H2(s, p) \/ K2(s) THEN "H2"
-  ELSE IF \A s \in SafeSlots : \A p \in Unsafe(s) : H2(s, p) \/ K2(s) \/ SharedOld(s) THEN "IosSharedAcl"
+  ELSE IF \A s \in SafeSlots : \A p \in Unsafe(s) : H2(s, p) \/ K2(s) \/ H3(s, p) THEN "H3"
+  ELSE IF \A s \in SafeSlots : \A p \in Unsafe(s) : H2(s, p) \/ K2(s) \/ H3(s, p) \/ SharedOld(s) THEN "IosSharedAcl"
   ELSE ""
 
 \* known finding on a secondary attribute: remarks next to block borders
